@@ -304,6 +304,12 @@ func runRoundTrip(c *Ctx, closure bool) {
 			}
 			hasSeconds := strings.Contains(layout, "05") && strings.Contains(layout, "-0700")
 			c.check(found && hasSeconds, "RT-DATE", "type1 template / type1.dateFormats", "the creation date is written in a layout the reader accepts, to the second, with its zone", token.NoPos, layout, fmt.Sprintf("the template formats the creation date as %q, which is not among the reader's layouts %q (or lacks seconds/zone)", layout, layouts))
+			// every element of the layout must read back whatever it prints: the zone abbreviation does
+			// not — time.Format prints the location's name verbatim (any text, line ends included) or,
+			// for a zone without a name, a numeric offset, while time.Parse accepts three or four
+			// capital letters only; the numeric offset carries the zone
+			c.check(layout != "" && !strings.Contains(layout, "MST"), "RT-DATE", "type1 template / type1.dateFormats", "every element of the written layout reads back what it prints (no zone abbreviation)", token.NoPos, layout,
+				fmt.Sprintf("the creation date is written with the layout %q: the zone abbreviation element prints the name of the location as it is — an unnamed fixed zone gives a second numeric offset, a one-letter or long name gives text that time.Parse refuses, and a name with a line end leaves the comment — so the creation time of such fonts is lost (or worse) on reading", layout))
 			// written on a %%CreationDate: line, read from DSC key CreationDate
 			okKey := strings.HasSuffix(dateBefore, "\n%%CreationDate: ") || dateBefore == "%%CreationDate: "
 			// the reader (or a helper of it) compares a comment key with "CreationDate"
